@@ -164,6 +164,29 @@ def ensureVerificationAlgorithm (p : GoMap) (alg : Int) (external : Option Bytes
   | .notFound => if (external.getD []).length > 0 then .ok () else .err .algNotFound
   | .failed e => .err e
 
+/-- `ProtectedHeader.Critical()` (headers.go:203): absent → nil; else validated list -/
+def critical (h : GoMap) : Out (Option (List GoVal)) :=
+  match h.lookup (lbl 2) with
+  | none => .ok none
+  | some v =>
+    if ensureCritical v h then
+      (match v with
+       | .arr l => .ok (some l)
+       | _ => .panic)      -- `value.([]any)` is guarded by ensureCritical
+    else .err .other
+
+/-- `ProtectedHeader.SetType` (headers.go:120) -/
+def setType (h : GoMap) (typ : GoVal) : Out GoMap :=
+  if !canTstr typ && !canUint typ then .err .other else .ok (h.set (lbl 16) typ)
+
+/-- `ProtectedHeader.SetCWTClaims` (headers.go:129): iss (1) and sub (2), when present under the
+    `int` keys the method looks up, must be text -/
+def setCWTClaims (h : GoMap) (claims : GoMap) : Out GoMap :=
+  let bad (n : Int) : Bool := match claims.lookup (.int .i n) with
+    | some v => !canTstr v
+    | none => false
+  if bad 1 || bad 2 then .err .other else .ok (h.set (lbl 15) (.map claims))
+
 /-! ### UTF-8 validity (Go `utf8.Valid`) -/
 
 def utf8Valid : Bytes → Bool
